@@ -287,6 +287,7 @@ static void run_c05(long cases) {
 struct DigestHandler : public Http::Handler {
     HTTP_PROTOTYPE(DigestHandler)
     void onRequest(const Http::Request& req, Http::ResponseWriter response) override {
+        if (req.resource() == "/__big") { response.send(Http::Code::Ok, std::string(12u << 20, 'B')); return; }   // an answer the client lets wait: the connection's output is blocked
         if (req.resource() == "/__throw") throw std::runtime_error("handler failed");
         if (req.resource() == "/__throwhttp") throw Http::HttpError(Http::Code::Forbidden, "handler refuses");
         response.send(Http::Code::Ok, mg::snap(req));
@@ -383,6 +384,33 @@ static void run_seg(long cases) {
                     g_distinct.add(std::string("kafail|") + PRED[pk][0] + "|" + std::to_string(st0));
                     count("c04_server_level_after_failure");
                 } else count("c04_server_closed_after_failure");
+            }
+        }
+        if (n % 4 == 1) {   // the same history with a client that does NOT read in between: it asks for 12 MiB, lets the answer wait (2 KiB receive buffer, output
+            // of the connection blocked), sends the failing request and - in a segment of its own, a moment later - the successor; only then
+            // does it read.  The framework's error answer cannot be written at once; the successor has to be parsed on a clean slate all the same.
+            static const char* PREDB[][2] = {{"unknown-method", "BREW /p HTTP/1.1\r\nHost: x\r\n\r\n"}, {"bad-content-length", "GET /p HTTP/1.1\r\nHost: x\r\nContent-Length: 12x\r\n\r\n"},
+                                            {"bad-chunk-size", "POST /p HTTP/1.1\r\nHost: x\r\nTransfer-Encoding: chunked\r\n\r\n3\r\nabc\r\nzz\r\n"}, {"bad-cookie-500", "GET /p HTTP/1.1\r\nHost: x\r\nCookie: novalue\r\n\r\n"}};
+            int pk = r.range(0, 3); int k = r.range(0, 2);
+            set_caps({}, false);
+            std::string wt = Json().num("i", idx).str("phase", "seg-c04-after-failure-output-blocked").str("predecessor", PREDB[pk][0]).str("shape", ms[k].shape).str("hex", hex(ms[k].bytes.substr(0, 3000))).done();
+            set_case(idx, wt);
+            lv::Conn c; if (c.open_to(port, 2048)) {
+                c.send_all("GET /__big HTTP/1.1\r\nHost: x\r\nConnection: keep-alive\r\n\r\n"); lv::msleep(150);
+                c.send_all(PREDB[pk][1]); lv::msleep(120);
+                c.send_all(ms[k].bytes); lv::msleep(60);
+                // now read: the big answer, the error answer, the successor's answer
+                std::string buf; size_t off = 0; lv::HttpMsg m1, m2, m3; double lastProgress = lv::now(); size_t lastSize = 0; int got = 0;
+                for (;;) { lv::HttpMsg m = lv::parse_http(buf, off, true); if (!m.error.empty()) break; if (m.complete) { (got == 0 ? m1 : got == 1 ? m2 : m3) = m; off += m.consumed; if (++got == 3) break; continue; }
+                    bool eof = false; if (!c.read_some(buf, 200, 1 << 30, &eof)) break; if (buf.size() != lastSize) { lastSize = buf.size(); lastProgress = lv::now(); } else if (lv::now() - lastProgress > 6 * lv::load_factor()) break; }
+                g_evals++;
+                if (got >= 2 && m1.status == 200 && m2.status >= 400) {
+                    // (a connection the server closes after its error answer is out of scope)
+                    if (got == 3) { if (m3.status != refStatus[k] || m3.body != ref[k]) violation(std::string("c04:server:after-failed-request:output-blocked:") + PREDB[pk][0] + ":" + (m3.status != refStatus[k] ? "status-differs" : "message-differs"),
+                            "request (" + ms[k].shape + ") sent right behind a request answered " + std::to_string(m2.status) + " (" + PREDB[pk][0] + ") while the connection's output was blocked: status " + std::to_string(m3.status) + " (fresh connection: " + std::to_string(refStatus[k]) + ")" + (m3.body != ref[k] ? ", parsed message differs" : ""), wt);
+                        count("c04_server_level_after_failure_output_blocked"); }
+                    else { struct pollfd pf{c.fd, POLLIN, 0}; bool closed = ::poll(&pf, 1, 30) > 0; if (closed) count("c04_server_closed_after_failure"); else violation(std::string("c04:server:after-failed-request:output-blocked:") + PREDB[pk][0] + ":no-answer", "request (" + ms[k].shape + ") sent right behind a failed request while the connection's output was blocked got no answer", wt); }
+                } else count("c04_output_blocked_history_not_established");
             }
         }
         if (g_samples_left > 0 && (n % 17) == 3) { g_samples_left--; sample(Json().str("shapes", ms[0].shape + " " + ms[1].shape + " " + ms[2].shape).done()); }
